@@ -210,6 +210,7 @@ func TestVerifWireSize(t *testing.T) {
 			c, _ := keys.DecodeChunks([]byte(k))
 			balChunks = int(c)
 		}
+		nLarge := 0
 		actions := make([]chain.Action, na)
 		recs := make([]wsAct, na)
 		for i := 0; i < na; i++ {
@@ -226,7 +227,18 @@ func TestVerifWireSize(t *testing.T) {
 					a.Keys = append(a.Keys, wsKey{Name: wsSponsorKey, Chunks: balChunks, Perm: perms[r.Intn(len(perms))]})
 					continue
 				}
-				a.Keys = append(a.Keys, wsKey{Name: fmt.Sprintf("k%d", r.Intn(5)), Chunks: 1 + r.Intn(3), Perm: perms[r.Intn(len(perms))]})
+				// chunk suffix: 0 (a key whose value may only be empty: still charged the per-key units), 1..3, and now
+				// and then 255 / 65535 (at most three large ones per transaction, prices are then kept <= 2)
+				ch := r.Intn(4)
+				switch x := r.Intn(25); {
+				case x < 2 && nLarge < 3:
+					ch = 255
+					nLarge++
+				case x == 2 && nLarge < 3:
+					ch = 65535
+					nLarge++
+				}
+				a.Keys = append(a.Keys, wsKey{Name: fmt.Sprintf("k%d", r.Intn(5)), Chunks: ch, Perm: perms[r.Intn(len(perms))]})
 			}
 			a.SponsorRaw = sponsorRaw
 			// state.Keys is a map: the same (name, chunks) inside one action collapses, permissions are OR-ed
@@ -251,6 +263,9 @@ func TestVerifWireSize(t *testing.T) {
 			prices[i] = uint64([]int{0, 1, 1, 2, 7, 100}[r.Intn(6)])
 			if nonZero && prices[i] == 0 {
 				prices[i] = uint64(1 + r.Intn(9))
+			}
+			if nLarge > 0 && prices[i] > 2 {
+				prices[i] = 1 + prices[i]%2
 			}
 		}
 		now := int64(1_724_315_246_000 + r.Intn(1_000_000_000))
